@@ -962,7 +962,7 @@ class Message(ABC):
             value = self.__raw_get(name)
             if value is not PLACEHOLDER:
                 kwargs[name] = deepcopy(value)
-        return self.__class__(**kwargs)  # type: ignore
+        return self.__copy_state_to(self.__class__(**kwargs))  # type: ignore
 
     def __copy__(self: T, _: Any = {}) -> T:
         kwargs = {}
@@ -970,7 +970,14 @@ class Message(ABC):
             value = self.__raw_get(name)
             if value is not PLACEHOLDER:
                 kwargs[name] = value
-        return self.__class__(**kwargs)  # type: ignore
+        return self.__copy_state_to(self.__class__(**kwargs))  # type: ignore
+
+    def __copy_state_to(self: T, other: T) -> T:
+        # The constructor derives presence from its arguments and knows nothing
+        # about unknown fields: carry both over as they are.
+        other.__dict__["_unknown_fields"] = self._unknown_fields
+        other.__dict__["_serialized_on_wire"] = self._serialized_on_wire
+        return other
 
     @classproperty
     def _betterproto(cls: type[Self]) -> ProtoClassMetadata:  # type: ignore
